@@ -995,6 +995,13 @@ func (e *c04Eng) spawn(o c04Op) *c04Thread {
 	case "tick":
 		f = func() { c.updatePresence() }
 	case "shutdown":
+		// Node.Shutdown closes every registered connection in goroutines of its own: the driver must not take
+		// the moment before such a goroutine has started for quiescence
+		if _, ok := e.node.hub.UserConnections("u1")[c.uid]; ok && !c.closing.Load() {
+			e.mu.Lock()
+			e.expectClosing = true
+			e.mu.Unlock()
+		}
 		f = func() {
 			ctx, cancel := context.WithTimeout(context.Background(), 30*time.Second)
 			defer cancel()
